@@ -641,7 +641,7 @@ func genC13(t *rapid.T) c13Case {
 		if c.Scale == "1E8hdr" {
 			q = gen.Seq{Family: "constant", N: 8}
 		} else {
-			q = gen.DrawSeq(t, n, []string{"uniform", "uniform", "uniform", "biased", "markov", "periodic", "constant", "sparse", "runs"})
+			q = gen.DrawSeq(t, n, []string{"uniform", "uniform", "uniform", "biased", "markov", "periodic", "constant", "sparse", "runs", "nearflat", "nearflat", "debruijn", "bytewords", "prefixconst"})
 		}
 		c.Files = append(c.Files, c13File{Path: p, Seq: q})
 	}
